@@ -96,7 +96,11 @@ def get_executed_param_names_and_issues(function_value, arguments):
     default_param_context = function_value.get_default_param_context()
 
     for param in funcdef.get_params():
-        param_dict[param.name.value] = param
+        # Keyword arguments only ever match normal parameters. A keyword that
+        # happens to be spelled like `*args` or `**kwargs` does not bind that
+        # parameter: it ends up in `**kwargs` (or is an unexpected keyword).
+        if not param.star_count:
+            param_dict[param.name.value] = param
     unpacked_va = list(arguments.unpack(funcdef))
     var_arg_iterator = PushBackIterator(iter(unpacked_va))
 
